@@ -378,8 +378,13 @@ ClosedStaysClosed == [][(phase = "closed" /\ act'[1] # "Reopen") => phase' = "cl
 \* next() while the newest trial is PENDING hands out the same trial again (same id, same DNA, nothing proposed)
 PendingIsReoffered == [][(act'[1] = "Next" /\ phase # "closed" /\ active /\ Pending # {})
                           => (out' = <<"yield", N, trials[N].dna>> /\ UNCHANGED data)]_vars
-\* a call that fails, is refused or finds nothing to do leaves every observable unchanged
-FailedCallChangesNothing == [][out'[1] \in {"err", "noop", "stop", "quiet"} => UNCHANGED <<data, handles>>]_vars
+\* a call that fails, is refused or finds nothing to do leaves every observable unchanged; a next() that stops may
+\* only have completed controller-evaluated proposals on its way
+FailedCallChangesNothing ==
+  [][/\ out'[1] \in {"err", "noop", "quiet"} => UNCHANGED <<data, handles>>
+     /\ out'[1] = "stop" => /\ UNCHANGED <<handles, smeta, active>>
+                            /\ SubSeq(trials', 1, N) = trials
+                            /\ \A i \in (N + 1)..Len(trials') : trials'[i].dna \in CtrlAt]_vars
 \* reads are pure
 ReadsArePure == [][act'[1] \in {"GetMeta", "StopEarly"} => UNCHANGED <<data, phase, handles>>]_vars
 \* metadata: a write is visible to the next read of the same key in the same store and touches nothing else
